@@ -854,6 +854,17 @@ class TExpr:
                     if e[1] not in ("F", "S"):
                         self.fail(f".{name}() on type {e[1]}")
                     e = (f"(RNum.{name} {e[0]})", e[1])
+                elif name in ("max", "min"):
+                    self.i += 2
+                    self.expect("(")
+                    arg = self.expr()
+                    self.expect(")")
+                    if e[1] == "?":
+                        e = self.coerce_lit(e, arg[1])
+                    arg = self.coerce_lit(arg, e[1])
+                    if e[1] != "N" or arg[1] != "N":
+                        self.fail(f".{name}() on types {e[1]}, {arg[1]}")
+                    e = (f"(Nat.{name} {e[0]} {arg[0]})", "N")
                 else:
                     return e
             else:
@@ -868,7 +879,7 @@ class TExpr:
             return self.coerce_lit(e, tgt)
         if t == tgt:
             return e
-        table = {("N", "F"): "(RNum.ofNat {})", ("N", "S"): "(RNum.ofNat32 {})", ("F", "S"): "(RNum.n32 {})",
+        table = {("N", "F"): "(RNum.ofNat (ρ := ρ) {})", ("N", "S"): "(RNum.ofNat32 (ρ := ρ) {})", ("F", "S"): "(RNum.n32 {})",
                  ("F", "N"): "(RNum.toNat {})", ("S", "N"): "(RNum.toNat {})", ("F", "I"): "(RNum.toInt {})",
                  ("S", "I"): "(RNum.toInt {})", ("I", "F"): "(RNum.ofInt {})", ("N", "I"): "(Int.ofNat {})",
                  ("S", "F"): "{}"}
@@ -903,6 +914,20 @@ class TExpr:
                 if name not in self.ftypes:
                     self.fail(f"field self.{name} of unknown type")
                 return (self.param(name, self.ftypes[name]), self.ftypes[name])
+            if x == "integer":
+                # num_integer::gcd on usize
+                self.expect("::")
+                k2, fnm = self.next()
+                if fnm != "gcd":
+                    self.fail(f"integer::{fnm}")
+                self.expect("(")
+                a = self.expr()
+                self.expect(",")
+                b = self.expr()
+                self.expect(")")
+                if a[1] != "N" or b[1] != "N":
+                    self.fail("integer::gcd on non-usize operands")
+                return (f"(Nat.gcd {a[0]} {b[0]})", "N")
             if x in self.consts:
                 return self.consts[x]
             if x in self.ftypes:
@@ -1032,10 +1057,58 @@ def gen_formulas(item_prefix="G7"):
     add("sincOut_needed_new", find_stmt(newb, r"let\s+needed_input_size\s*=\s*(.*?);", "G7.sincOut_needed_new"), ft[T], {}, "N", "SincFixedOut::new_with_interpolator: needed_input_size", {"resample_ratio": "F", "chunk_size": "N"})
     add("sincOut_buffer_len_new", find_stmt(newb, r"let\s+buffer_channel_length\s*=\s*(.*?);", "G7.sincOut_buffer_len_new"), ft[T], {}, "N", "SincFixedOut::new_with_interpolator: buffer_channel_length", {"max_resample_ratio_relative": "F", "needed_input_size": "N"})
     add("sincOut_range_test", find_stmt(impl_method_body(src_, T, "set_resample_ratio", "G7"), RANGE, "G7.sincOut_range_test"), ft[T], {}, "B", "SincFixedOut::set_resample_ratio: accepted range", {"new_ratio": "F"})
+    # ---- the three synchronous (FFT) resamplers: block sizing and the frame bookkeeping
+    async_sigs = dict(sigs)
+    sigs.clear()
+    syn = strip_comments(read("synchro.rs"))
+    NL = {"sample_rate_input": "N", "sample_rate_output": "N", "chunk_size_in": "N", "chunk_size_out": "N",
+          "sub_chunks": "N", "gcd": "N", "min_chunk_in": "N", "min_chunk_out": "N", "wanted_subsize": "N",
+          "fft_chunks": "N", "fft_size_in": "N", "fft_size_out": "N", "chunks_needed": "N"}
+    for T, pre, minc in (("FftFixedInOut", "fftIo", "min_chunk_in"), ("FftFixedIn", "fftIn", "min_chunk_in"),
+                         ("FftFixedOut", "fftOut", "min_chunk_out")):
+        ftT = struct_field_types(syn, T, item_prefix)
+        newb = impl_method_body(syn, T, "new", "G7", trait=False)
+        names = ["gcd", minc] + (["wanted_subsize"] if T != "FftFixedInOut" else []) + ["fft_chunks", "fft_size_out", "fft_size_in"]
+        if T == "FftFixedOut":
+            names += ["chunks_needed", "frames_needed"]
+        for nm in names:
+            add(f"{pre}_new_{nm}", find_stmt(newb, r"let\s+" + nm + r"\s*=\s*(.*?);", f"G7.{pre}_new_{nm}"), {}, {}, "N",
+                f"{T}::new: {nm}", NL)
+        add(f"{pre}_output_delay", single_expr(impl_method_body(syn, T, "output_delay", "G7"), "G7"), ftT, {}, "N", f"{T}::output_delay")
+        if T == "FftFixedOut":
+            pb = impl_method_body(syn, T, "process_into_buffer", "G7")
+            add("fftOut_proc_chunks_needed", find_stmt(pb, r"let\s+chunks_needed\s*=\s*(.*?);", "G7.fftOut_proc_chunks_needed"), ftT, {}, "N",
+                "FftFixedOut::process_into_buffer: chunks_needed", {"frames_needed_out": "N"})
+            add("fftOut_proc_frames_needed", find_stmt(pb, r"self\.frames_needed\s*=\s*(.*?);", "G7.fftOut_proc_frames_needed"), ftT, {}, "N",
+                "FftFixedOut::process_into_buffer: frames_needed", {"chunks_needed": "N"})
+            add("fftOut_input_frames_max", single_expr(impl_method_body(syn, T, "input_frames_max", "G7"), "G7"), ftT, {}, "N", "FftFixedOut::input_frames_max")
+            rb = impl_method_body(syn, T, "reset", "G7")
+            add("fftOut_reset_chunks_needed", find_stmt(rb, r"let\s+chunks_needed\s*=\s*(.*?);", "G7.fftOut_reset_chunks_needed"), ftT, {}, "N",
+                "FftFixedOut::reset: chunks_needed")
+            add("fftOut_reset_frames_needed", find_stmt(rb, r"self\.frames_needed\s*=\s*(.*?);", "G7.fftOut_reset_frames_needed"), ftT, {}, "N",
+                "FftFixedOut::reset: frames_needed", {"chunks_needed": "N"})
+        if T == "FftFixedIn":
+            pb = impl_method_body(syn, T, "process_into_buffer", "G7")
+            loc = {"next_saved_frames": "N", "nbr_chunks_ready": "N"}
+            for nm in ("next_saved_frames", "nbr_chunks_ready", "needed_len"):
+                add(f"fftIn_proc_{nm}", find_stmt(pb, r"let\s+" + nm + r"\s*=\s*(.*?);", f"G7.fftIn_proc_{nm}"), ftT, {}, "N",
+                    f"FftFixedIn::process_into_buffer: {nm}", loc)
+            add("fftIn_output_frames_next", single_expr(impl_method_body(syn, T, "output_frames_next", "G7"), "G7"), ftT, {}, "N", "FftFixedIn::output_frames_next")
+            ob = impl_method_body(syn, T, "output_frames_max", "G7")
+            loc = {"max_stored_frames": "N", "max_available_frames": "N", "max_subchunks_to_process": "N"}
+            for nm in loc:
+                add(f"fftIn_omax_{nm}", find_stmt(ob, r"let\s+" + nm + r"\s*=\s*(.*?);", f"G7.fftIn_omax_{nm}"), ftT, {}, "N",
+                    f"FftFixedIn::output_frames_max: {nm}", loc)
+            last = ob.strip().split(";")[-1].strip()
+            add("fftIn_omax_result", last, ftT, {}, "N", "FftFixedIn::output_frames_max: result", loc)
     # parameter orders, for the tie lemmas
     out.append("/-- which struct fields / locals each generated formula reads, in order of first use: a formula that starts reading a")
     out.append("    different field (e.g. `resample_ratio_original` instead of `resample_ratio`) changes this table -/")
     out.append("def formulaParams : List (String × List String) := [")
+    out.append(",\n".join(f'  ("{k}", [{", ".join(chr(34) + p + chr(34) for p in v)}])' for k, v in async_sigs.items()) + "]")
+    out.append("")
+    out.append("/-- the same for the formulas of the synchronous (FFT) resamplers -/")
+    out.append("def fftFormulaParams : List (String × List String) := [")
     out.append(",\n".join(f'  ("{k}", [{", ".join(chr(34) + p + chr(34) for p in v)}])' for k, v in sigs.items()) + "]")
     return "\n".join(out)
 
@@ -1055,6 +1128,102 @@ set_option linter.unusedVariables false
 namespace Rubato.Gen
 open Rubato
 """
+
+
+# ------------------------------------------------------------------------------------------ G8: wrapper forwarding
+def gen_forwarding(item="G8.vec_resampler_forwarding"):
+    """`implement_resampler!` (lib.rs): every method of the generated wrapper trait must be a single call of a
+    `rubato::Resampler` method on `self` with the wrapper's own parameters.  Emitted as numbers (method ids = position in
+    the trait declaration) so that the Lean side can decide `callee = method` and `args = own parameters in order`."""
+    src = strip_comments(read("lib.rs"))
+    m = re.search(r"macro_rules!\s*implement_resampler\s*\{", src)
+    if not m:
+        raise TranslateError(item, "macro implement_resampler not found")
+    body, _ = block_after(src, m.end() - 1, item)
+    mt = re.search(r"pub\s+trait\s+\$trait_name\s*<T>\s*:\s*Send\s*\{", body)
+    mi = re.search(r"impl\s*<T,\s*U>\s*\$trait_name\s*<T>\s*for\s+U\b[^{]*\{", body)
+    if not mt or not mi:
+        raise TranslateError(item, "trait declaration / blanket impl not found in implement_resampler!")
+    decl, _ = block_after(body, mt.end() - 1, item)
+    impl, _ = block_after(body, mi.end() - 1, item)
+    declared = re.findall(r"\bfn\s+([a-z_0-9]+)\s*\(", decl)
+    if len(declared) != len(set(declared)) or not declared:
+        raise TranslateError(item, "unexpected trait declaration")
+    rows = []
+    pos = 0
+    seen = []
+    while True:
+        mf = re.compile(r"\bfn\s+([a-z_0-9]+)\s*\(").search(impl, pos)
+        if not mf:
+            break
+        name = mf.group(1)
+        # parameter list up to the matching ')'
+        depth, k = 1, mf.end()
+        while depth:
+            if impl[k] == "(":
+                depth += 1
+            elif impl[k] == ")":
+                depth -= 1
+            k += 1
+        params_txt = impl[mf.end():k - 1]
+        params = []
+        for p in split_top(params_txt):
+            p = p.strip()
+            if not p:
+                continue
+            if p in ("&self", "&mut self", "self"):
+                params.append("self")
+            else:
+                params.append(p.split(":")[0].strip())
+        brace = impl.index("{", k)
+        fbody, pos = block_after(impl, brace, item)
+        fbody = fbody.strip()
+        mc = re.fullmatch(r"rubato::Resampler::([a-z_0-9]+)\s*\((.*)\)", fbody, re.S)
+        if not mc:
+            raise TranslateError(item, f"wrapper method {name} is not a single rubato::Resampler call: {fbody[:80]!r}")
+        callee = mc.group(1)
+        args = []
+        for a in split_top(mc.group(2)):
+            a = a.strip()
+            if not a:
+                continue
+            a = re.sub(r"\.map\(AsRef::as_ref\)$", "", a)   # Option<&[V]> re-borrow, same value
+            if a not in params:
+                raise TranslateError(item, f"wrapper method {name}: argument {a!r} is not one of its parameters")
+            args.append(params.index(a))
+        if name not in declared:
+            raise TranslateError(item, f"impl method {name} is not declared in the wrapper trait")
+        if callee not in declared:
+            raise TranslateError(item, f"wrapper method {name} calls {callee}, which is not a wrapper-trait method name")
+        seen.append(name)
+        rows.append((declared.index(name), declared.index(callee), args, len(params), name, callee))
+    if sorted(seen) != sorted(declared):
+        raise TranslateError(item, "blanket impl does not define exactly the declared methods")
+    out = ["/-- `implement_resampler!`: (wrapper method id, `rubato::Resampler` method it calls, positions of the wrapper's own",
+           "    parameters passed as arguments (0 = self), number of parameters). Method ids = order of declaration in the",
+           "    wrapper trait: " + ", ".join(f"{i}={n}" for i, n in enumerate(declared)) + " -/",
+           "def forwardTable : List (Nat × Nat × List Nat × Nat) := ["]
+    out.append(",\n".join(f"  ({a}, {b}, [{', '.join(map(str, c))}], {d})  /- {n} -> {cal} -/" for a, b, c, d, n, cal in rows) + "]")
+    out.append("")
+    out.append(f"def forwardMethods : Nat := {len(declared)}")
+    return "\n".join(out)
+
+
+def split_top(txt):
+    """split at top-level commas"""
+    parts, depth, cur = [], 0, ""
+    for ch in txt:
+        if ch in "([{<":
+            depth += 1
+        elif ch in ")]}>":
+            depth -= 1
+        if ch == "," and depth == 0:
+            parts.append(cur)
+            cur = ""
+        else:
+            cur += ch
+    parts.append(cur)
+    return parts
 
 
 def generate():
@@ -1088,6 +1257,9 @@ def generate():
     parts.append("namespace Effects")
     parts.append(gen_effects())
     parts.append("end Effects\n")
+    parts.append("namespace Forward")
+    parts.append(gen_forwarding())
+    parts.append("end Forward\n")
     parts.append("end Rubato.Gen")
     return "\n".join(parts) + "\n"
 
